@@ -62,7 +62,8 @@ CONSTANTS
   PermuteLists,  \* TRUE: every order of the participant lists of the proposal is explored
   AtomicGossip,  \* TRUE: the whole proposal/accept/execute gossip is one step
   AtomicExec,    \* TRUE: the whole kyber run is one step
-  MaxDrop        \* number of bundles the network may lose on one directed link (0 or 1)
+  MaxDrop,       \* number of bundles the network may lose on one directed link (0 or 1)
+  DropKinds      \* kinds of bundles ("D", "R", "J") that may be lost
 
 VARIABLES
   rank,     \* [Nodes -> Nat]  order of the nodes' public keys (bytes)
@@ -434,7 +435,7 @@ Timely == ExecNodes \ LateSet
 (* can still bring b to `to`: taken while nobody else has b, so the copy in   *)
 (* flight is the author's; at least three nodes must be relaying.            *)
 BDrop(b, to) ==
-  /\ dropped < MaxDrop
+  /\ dropped < MaxDrop /\ b[1] \in DropKinds
   /\ <<b, to>> \in bnet
   /\ Cardinality(Timely) >= 3
   /\ \A x \in ExecNodes \ {b[2]} : b \notin hashes[x]
